@@ -23,7 +23,18 @@ PROGRAMS = [
 
 
 def items(tier, seed):
-    return [dict(name=n, src=s, param=p, goals=g, nmax=5 if tier == 'quick' else 8, budget=120 if tier == 'quick' else 400) for n, s, p, g in PROGRAMS]
+    its = [dict(name=n, src=s, param=p, goals=g, nmax=5 if tier == 'quick' else 8, budget=120 if tier == 'quick' else 400) for n, s, p, g in PROGRAMS]
+    if tier != 'quick':
+        # generated programs of family G that mention a symbolic parameter p or q: first and second moments of up to two variables
+        from spec import gen
+        k = 0
+        for n, src, vs in gen.family(31000 + seed, 600, allow_params=True):
+            par = next((q for q in ('p', 'q') if re.search(r'(?<![A-Za-z0-9_])%s(?![A-Za-z0-9_])' % q, src)), None)
+            if par is None or not vs: continue
+            goals = [str(v) for v in vs[:2]] + [f'{vs[0]}**2']
+            its.append(dict(name='gen_' + n, src=src, param=par, goals=goals, nmax=4, budget=200)); k += 1
+            if k >= 60: break
+    return its
 
 
 def printed_sens(so):
